@@ -104,3 +104,15 @@ Definition jwt_arg_eqb (a b : jwt_arg) : bool :=
 Definition jarg_case := (list jwt_arg * option (list jwt_arg))%type.
 Definition jarg_model_ok (c : jarg_case) : bool :=
   let '(args, obs) := c in option_eqb (list_eqb jwt_arg_eqb) (replace_options_arg args) obs.
+
+(** Classification by observation (known-finding classes must predict the observed failure, not the input's shape):
+    the observed output is exactly what the code-as-written model computes ... *)
+Definition as_written_ok (c : tree_case) : bool :=
+  let '(k, e, obs) := c in expr_eqb (erase (rw k e)) (erase obs).
+(** ... and it is the nested-selected-call deviation: the input has a selected call below a selected call, the output
+    differs from the rebuild-from-updated_node reading, and only at or below a selected call *)
+Definition nested_class_ok (c : tree_case) : bool :=
+  let '(k, e, obs) := c in
+  expr_eqb (erase (rw k e)) (erase obs) && negb (nonnested e)
+  && negb (expr_eqb (erase obs) (erase (rw_upd k e)))
+  && differs_only_below expr_eqb e (erase obs) (erase (rw_upd k e)).
